@@ -6,6 +6,14 @@ ids = [json.loads(l)["id"] for l in open(os.path.join(HERE, "properties.jsonl"))
 
 # pid -> (category, text, level_note, technique, design_ref)
 CLAIMS = {
+ "C06": ("proof",
+         "Encoder, decoder and opcode tables are extracted from the MIR of SimInstr::encode/decode/opcode and compared as sets of facts with the hand-written ISA table and with each other: same ranges, same constructor positions, types of the same width, and the decoder asserts/selects exactly the encoder's constant bits (decodes iff canonical; reserved opcode -> IllegalOpcode, assert failure -> InvalidInstrFormat). The leaf functions join_bits-closure and slice are decided in a bit-provenance abstract domain for every range occurring in the tables. Every obligation must be discharged.",
+         "Trusted base: rustc MIR, mirfacts, the table extractor (rules/lib/tables.py), the bit domain transfer functions, spec/lc3_isa.json. Relies on the Offset invariant (C35) and on BR's cc being 3 bits.",
+         "table extraction from MIR + sibling agreement + bit-provenance abstract interpretation", "5 C06"),
+ "C35": ("proof",
+         "OffsetBacking::truncate is evaluated in the bit-provenance domain for both backings and all N in 1..=16 on a symbolic 16-bit input (32 obligations): zero/sign extension of the low N bits. Offset::new builds Ok(Offset(n)) exactly on the edge n == truncate(n, N) and the backing's error otherwise; new_trunc stores truncate(n, N); Offset is only built by these two functions and its field is private.",
+         "Trusted base: rustc MIR, mirfacts, rules/lib/bits.py. `==` on the backing integers is the primitive equality.",
+         "bit-provenance abstract interpretation of MIR expression trees + dominator checks", "5 C35"),
  "C04": ("other",
          "Panic reachability with discharge over every function of src/parse.rs and src/parse/lex.rs (incl. the inline lexer callbacks logos pastes into generated code) plus provenance of the span argument of every ParseErr construction (passed on from a token span / cursor, never computed). Decides the no-panic clause for all input strings and a structural necessary condition of 'span lies within the input'.",
          "Trusted: logos-generated state machine and its token spans, std; token-language facts are read from the #[regex] attributes. Spans are shown to be passed-on token spans, not re-validated numerically.",
